@@ -17,6 +17,7 @@
 package url
 
 import (
+	"strconv"
 	"strings"
 )
 
@@ -174,11 +175,13 @@ func (u *Url) SetPort(port string) {
 }
 
 func (u *Url) DecodedPort() int {
-	if u.decodedPort == 0 {
-		return u.getDefaultPort()
-	} else {
-		return u.decodedPort
+	if u.port != nil {
+		// an explicit port, including 0, is its own value
+		if p, err := strconv.Atoi(*u.port); err == nil {
+			return p
+		}
 	}
+	return u.getDefaultPort()
 }
 
 // Pathname implements WHATWG url api (https://url.spec.whatwg.org/#api)
